@@ -100,6 +100,7 @@ SPECS["C04"] = dict(
         rapid("TestC04Hostile", 6000, 300000, sq=2, st=16),
         plain("TestC04KnownCwndReopen", sq=1, st=1),
         rapid("TestC04SessionWrite", 250, 8000, sq=2, st=16),
+        rapid("TestC04SessionWindow", 200, 6000, sq=4, st=16),
     ],
 )
 
